@@ -9,6 +9,11 @@ for g in GROUPS:
     g.pop('prop', None)
     g['what'] = 'buffer limit of the range encoder: ' + g['what'] + ' (writes only buf[0..storage), sets error instead of overrunning)'
 for g in reg_C07.GROUPS:
+    if g['name'] in ('out_range_size_c2', 'out_range_size_c3'):
+        # the repacketizer's length arithmetic decides the size of every multi-frame packet the encoder returns
+        h = copy.deepcopy(g); h.pop('prop', None)
+        h['what'] = 'multi-frame packets are assembled by the repacketizer: ' + h.get('what', '') + ' (result <= maxlen, refused cleanly when too small, exact canonical size)'
+        GROUPS.append(h)
     if g['name'] == 'repack_two_2_2':
         h = copy.deepcopy(g); h.pop('prop', None); h['name'] = 'repack_maxlen_b'
         h['what'] = 'repacketizer output never exceeds maxlen, is refused cleanly when too small (bounded)'
